@@ -167,6 +167,7 @@ func cmdCheck(args []string) int {
 		fmt.Fprintln(os.Stderr, "infrastructure error: no configuration for property", *prop)
 		return 2
 	}
+	currentProperty = *prop
 	var ov map[string][]byte
 	for _, o := range overlays {
 		i := strings.Index(o, "=")
@@ -541,6 +542,11 @@ func declareOpaque(P *Program, db *SpecDB, ti *TypeInfo) {
 		}
 		gt, err := e.resolveGoType(te, od.PkgPath, od.Imports)
 		if err != nil {
+			if od.PkgPath != "" && !P.Complete[od.PkgPath] {
+				// the declaring package is only a stub of this load (reached indirectly): the type is simply not in play
+				db.Skipped = append(db.Skipped, fmt.Sprintf("opaque/immutable %s (package %s only partially loaded)", te.String(), od.PkgPath))
+				continue
+			}
 			db.Errors = append(db.Errors, "opaque/immutable "+te.String()+": "+err.Error())
 			continue
 		}
